@@ -151,3 +151,11 @@ def oracle_shared(case, obs):
 
 FAMILIES.append(Family("shared_type", gen_shared, impl_shared, None, None, oracle_shared,
                        lambda case, obs: json.dumps(case), shard=30, case_timeout=30))
+
+
+# ---- serialization failures while the current action belongs to another logger: the reports go where the write went ----
+from props import C08 as _c08
+
+FAMILIES.append(Family("foreign_logger", _c08.gen_foreign, _c08.impl_foreign, None, None, _c08.oracle_foreign,
+                       lambda case, obs: json.dumps(case) if case["outer"] != "none" and any(o[0] in ("raw_badser", "child") for o in case["ops"]) else None,
+                       shard=30, case_timeout=30))
